@@ -30,13 +30,14 @@ FOLDERS = {"d": "d", "dbd": "database"}
 
 CORE = [
     ("sw_compromise", "db"), ("sw_scan", "db"), ("sw_fix", "db"), ("svc_stop", "db"), ("svc_start", "db"), ("svc_pause", "db"),
-    ("svc_resume", "db"), ("sw_compromise", "cli"), ("sw_scan", "cli"), ("sw_fix", "cli"),
-    ("file_corrupt", "a"), ("file_scan", "a"), ("file_repair", "a"), ("file_delete", "a"), ("fs_restore_file", "a"),
+    ("sw_compromise", "cli"), ("sw_scan", "cli"), ("sw_fix", "cli"),
+    ("file_corrupt", "a"), ("file_scan", "a"), ("file_delete", "a"), ("fs_restore_file", "a"),
     ("folder_corrupt", "d"), ("folder_scan", "d"), ("folder_restore", "d"), ("folder_repair", "d"),
     ("os_scan", None), ("shutdown", None), ("startup", None), ("tick", None),
-    ("sql_delete", None), ("sql_encrypt", None), ("file_scan", "dbf"), ("peer_connect", None),
+    ("sql_delete", None), ("sql_encrypt", None), ("file_scan", "dbf"),
 ]
 EXTRA = [
+    ("svc_resume", "db"), ("file_repair", "a"), ("peer_connect", None),
     ("sw_compromise", "web"), ("sw_scan", "web"), ("sw_fix", "web"), ("svc_stop", "web"), ("svc_start", "web"),
     ("file_restore", "a"), ("file_corrupt", "dbf"), ("file_corrupt", "b"), ("file_scan", "b"), ("file_repair", "dbf"),
     ("folder_scan", "dbd"), ("folder_restore", "dbd"), ("folder_delete", "d"), ("fs_restore_folder", "d"),
@@ -461,7 +462,7 @@ class Monitor:
         for fo in fs.folders.values():
             fo.scan_duration, fo.restore_duration = d_scan, d_rest
         N.config.node_scan_duration = d_node
-        N.software_manager.software["database-service"].max_sessions = 3
+        N.software_manager.software["database-service"].max_sessions = 2
         self.durs = {"fix": d_fix, "folder-scan": d_scan, "folder-restore": d_rest, "node-scan": d_node}
         self.sh.db_file = {HOST: ("file", HOST, "database", "database.db")}
         sim.pre_timestep(0)
@@ -735,9 +736,9 @@ class Check:
             "service, web server, web browser, folder d with two files): software compromise / scan / fix, service "
             "stop / start / pause / resume, file corrupt / scan / repair / restore / delete / fs-level restore, folder corrupt / "
             "scan / repair / restore / delete / fs-level restore, node OS scan, shutdown, startup, tick, SQL DELETE / ENCRYPT and "
-            "connections from the peer, application install / remove. Words: every word of length 3 over a 27-op core "
-            "alphabet at one (thorough: four) duration setting(s); every word of length 4 (thorough: 5) over an 8-op timing alphabet at durations 0,1,2,3; "
-            "every pair over the 51-op alphabet; random words of length 30 with random durations in {0..3} (power {0..2}). "
+            "connections from the peer, application install / remove. Words: every word of length 3 over a 24-op core "
+            "alphabet at one (thorough: four) duration setting(s); every word of length 4 (durations 1,2; length 3 for 0,3; thorough: 5) "
+            "over an 8-op timing alphabet with all four durations equal to 0,1,2,3; every pair over the 51-op alphabet; random words of length 30 with random durations in {0..3} (power {0..2}). "
             "Every word is followed by a drain (node back ON, max duration + 2 ticks). Non-trivial word: at least one "
             "visible change inside a scan and one explained true-health change or timed completion; distinct by (durations, word).")
     assumptions = [
@@ -761,12 +762,13 @@ class Check:
                 specs.append({"name": f"exh3-c{ci}-{first}", "kind": "exh", "alpha": "CORE", "depth": 3, "first": first,
                               "durs": list(durs), "power": list(power)})
         for d in range(4):
+            depth = (4 if d in (1, 2) else 3) if quick else 5
             for first in range(len(TIMING)):
-                specs.append({"name": f"exh4t-d{d}-{first}", "kind": "exh", "alpha": "TIMING", "depth": 4 if quick else 5,
+                specs.append({"name": f"exh{depth}t-d{d}-{first}", "kind": "exh", "alpha": "TIMING", "depth": depth,
                               "first": first, "durs": [d, d, d, d], "power": [0, 0]})
         for first in range(0, len(FULL), 3):
             specs.append({"name": f"pairs-{first}", "kind": "pairs", "firsts": list(range(first, min(first + 3, len(FULL)))),
-                          "durs": [1, 1, 1, 1], "power": [0, 0]})
+                          "durs": [1, 1, 1, 1], "power": [0, 0], "with_tick": not quick})
         for s in range(32 if quick else 128):
             specs.append({"name": f"rand-{seed * 1000 + s}", "kind": "rand", "seed": seed * 1000 + s, "n": 25 if quick else 120, "len": 30})
         return specs
@@ -810,7 +812,8 @@ class Check:
             for f in spec["firsts"]:
                 for second in FULL:
                     one([FULL[f], second], spec["durs"], spec["power"])
-                    one([FULL[f], ("tick", None), second], spec["durs"], spec["power"])
+                    if spec.get("with_tick"):
+                        one([FULL[f], ("tick", None), second], spec["durs"], spec["power"])
         else:
             rnd = random.Random(spec["seed"])
             for _ in range(spec["n"]):
